@@ -468,3 +468,24 @@ def _benign_corpus():
 
 
 _benign_corpus()
+
+
+# Behaviour-preserving edits that some rule does not yet see through (DESIGN.md section 12.3): (case, property) -> reason.
+# The full self-test reports them as FALSE-ALARM; the thorough tier lists them as notes instead of failing, because
+# they say something about the checker's reach, not about the tree.  Anything not listed here must be silent.
+KNOWN_BRITTLE = {
+    ("ben-C01-4", "C03"): "read_weights: manual round-up `if` rewritten as div_ceil, `<= -1` as `< 0` (integer identities beyond the normal form)",
+    ("ben-C13-4", "C03"): "read_weights: div_ceil / `> 255` as `>= 256` / `% 2` as `& 1`",
+    ("ben-C13-4", "C13"): "reader nibble order: `idx % 2` spelled `idx & 1` together with usize::from",
+    ("ben-C05-4", "C03"): "execute_sequences: `counter += ll` rewritten as `counter = high`",
+    ("ben-C05-4", "C05"): "execute_sequences: `counter += ll` rewritten as `counter = high`",
+    ("ben-C06-2", "C06"): "checksum take moved into a helper returning bool: MIR counter/return pairing is per function",
+    ("ben-C10-2", "C06"): "checksum take moved into a helper returning bool: MIR counter/return pairing is per function",
+    ("ben-C12-3", "C03"): "read_probabilities / build_decoding_table: index loops rewritten as iter().enumerate() with continue",
+    ("ben-C13-3", "C02"): "compress_literals: nested if-let rewritten as match with guard around the header slot writes",
+    ("ben-C13-3", "C14"): "compress_literals: nested if-let rewritten as match with guard around the header slot writes",
+    ("ben-C13-3", "C13"): "encode_stream: padding width through `match misaligned() { 0 => 8, n => n }`",
+    ("ben-C16-3", "C02"): "compress_literals: nested if-let rewritten as nested match with guard",
+    ("ben-C16-3", "C14"): "compress_literals: nested if-let rewritten as nested match with guard",
+    ("ben-C18-3", "C18"): "io_nostd read_exact / write_all / read_to_end restructured (early Ok(()), `let n = match .. continue`)",
+}
